@@ -36,7 +36,10 @@ var generatorIndexConfirmed = map[string]string{
 
 func c11GeneratorIndexes(ctx *core.Ctx, cc *CC) {
 	ctx.Rule("C11.R15", "generators index only elements proved to exist (linear prover over all index expressions of the generator packages; the unprovable ones are a confirmed table)", 100)
-	cfg := &bounds.Config{IntBits: IntBits(), AssumeLenI32: true, ASCIIStrings: true}
+	// decided over 64-bit int whatever the build configuration: a declaration list of 2^31 elements is
+	// memory exhaustion, which C11 does not decide
+	cfg := &bounds.Config{IntBits: 64, AssumeLenI32: true, ASCIIStrings: true}
+	ctx.Assume("generator index arithmetic does not overflow (no declaration list approaches 2^31 elements)")
 	pr := bounds.New(cfg)
 	explore := os.Getenv("FV_EXPLORE") == "index"
 	tot, listed := 0, 0
